@@ -144,6 +144,37 @@ def install():
         return ret
     TaskPool.spawn_on_output = spawn_on_output
 
+    # SET / REMOVE (command bodies) ---------------------------------------
+    orig_set = TaskPool.set_prereqs_and_outputs
+
+    @functools.wraps(orig_set)
+    def set_prereqs_and_outputs(self, items, outputs, prereqs, flow,
+                                flow_wait=False, flow_descr=None):
+        from vlib.e1.driver import snap_pool
+        ev = _emit('SET_IN', items=sorted(i.relative_id for i in items),
+                   outputs=list(outputs or []), prereqs=list(prereqs or []),
+                   flow=list(flow or []), pool=snap_pool(self))
+        ret = orig_set(self, items, outputs, prereqs, flow, flow_wait,
+                       flow_descr)
+        _emit('SET_OUT', pool=snap_pool(self),
+              in_seq=ev['seq'] if ev else None)
+        return ret
+    TaskPool.set_prereqs_and_outputs = set_prereqs_and_outputs
+
+    from cylc.flow import commands as _commands
+    orig_rm = _commands._remove_matched_tasks
+
+    @functools.wraps(orig_rm)
+    def _remove_matched_tasks(schd, ids, flow_nums, *a, **kw):
+        from vlib.e1.driver import snap_pool
+        ev = _emit('REMOVE_IN', ids=sorted(i.relative_id for i in ids),
+                   flow_nums=sorted(flow_nums), pool=snap_pool(schd.pool))
+        ret = orig_rm(schd, ids, flow_nums, *a, **kw)
+        _emit('REMOVE_OUT', pool=snap_pool(schd.pool),
+              in_seq=ev['seq'] if ev else None)
+        return ret
+    _commands._remove_matched_tasks = _remove_matched_tasks
+
     # RELOAD ----------------------------------------------------------------
     orig_reload = TaskPool.reload
 
